@@ -31,9 +31,80 @@ var memberBodies = []string{
 }
 
 // genHIST: API histories over a set (and its clones): New, Parse*, assoc New, Lookup, Templates, Clone, Execute*.
+// ---- directed histories: one helper ("cell") used by callers in different contexts, executed in every order ----
+
+var cellBodies = []string{
+	"{{.X}}", "a < b {{.X}}", "<b>{{.X}}</b>", "<!-- c -->{{.X}}", "if (a < b) { f(); }", "x<y", "<!-- note -->literal",
+	"{{if .C}}<i>{{else}}<b>{{end}}", "<a title=\"{{.X}}", "<a href=\"{{.X}}", "<script>", "{{.X}}\" title=\"y", "{{template \"cell\" .}}",
+	"<a title=\"", "{{.X}}{{.Y}}", "<div {{.X}}>", "</title",
+}
+
+var callerBodies = []string{
+	"<p>{{template \"cell\" .}}</p>", "<p title=\"{{template \"cell\" .}}\">x</p>", "<a href=\"/search?q={{template \"cell\" .}}\">l</a>",
+	"<a href=\"{{template \"cell\" .}}\">l</a>", "<script>{{template \"cell\" .}}</script>", "<pre>{{template \"cell\" .}}</pre>",
+	"{{template \"cell\" .}}\">x</a>", "<textarea>{{template \"cell\" .}}</textarea>", "<style>{{template \"cell\" .}}</style>",
+	"<img alt='{{template \"cell\" .}}'>", "<b>{{template \"cell\" .}}</b>{{template \"cell\" .}}", "{{template \"cell\" .}}</script>{{template \"cell\" .}}{{.Y}}</script>",
+	"<title>{{template \"cell\" .}}</title", "<link rel=\"stylesheet\" href=\"{{template \"cell\" .}}\">", "<link rel=\"icon\" href=\"{{template \"cell\" .}}\">",
+	"<svg>{{template \"cell\" .}}</svg>", "{{if .C}}{{template \"cell\" .}}{{end}}",
+}
+
+// directedHistory: define cell + three callers, then execute members in a random order with repetitions,
+// optionally through a clone made before any execution.
+func directedHistory(c *Ctx) *histBuilder {
+	hb := newHistBuilder()
+	hb.add(Step{Op: "new", H: 0, Name: "root"})
+	callers := []string{pick(c, callerBodies), pick(c, callerBodies), pick(c, callerBodies)}
+	text := "root{{define \"cell\"}}" + pick(c, cellBodies) + "{{end}}"
+	for i, b := range callers {
+		text += fmt.Sprintf("{{define \"c%d\"}}%s{{end}}", i, b)
+	}
+	if hb.add(Step{Op: "parse", H: 0, Text: text}) == "" {
+		return nil
+	}
+	names := []string{"cell", "c0", "c1", "c2"}
+	data := c.randData()
+	useClone := c.rng.Intn(3) == 0
+	if useClone {
+		hb.add(Step{Op: "clone", H: 0, H2: 1})
+	}
+	n := 2 + c.rng.Intn(4)
+	for i := 0; i < n && !hb.dead; i++ {
+		h := 0
+		if useClone && hb.bound(1) && c.rng.Intn(2) == 0 {
+			h = 1
+		}
+		op := "exect"
+		if c.rng.Intn(5) == 0 {
+			op = "execthtml"
+		}
+		hb.add(Step{Op: op, H: h, Name: pick(c, names), Data: data})
+		if c.rng.Intn(6) == 0 {
+			hb.add(Step{Op: "parse", H: h, Text: "{{define \"cell\"}}changed{{end}}"})
+		}
+	}
+	return hb
+}
+
 func genHist(c *Ctx, which string) {
+	opName := "tmpl.hist"
+	if which != "" {
+		opName += "." + which
+	}
+	for i := 0; i < c.n(500, 8000); i++ {
+		hb := directedHistory(c)
+		if hb == nil {
+			c.stats.Classes["unparsable"]++
+			continue
+		}
+		r := hb.result()
+		c.emit(opName, []string{hb.hist()}, r, true, "directed-"+histClass(r))
+	}
+	genHistRandom(c, which)
+}
+
+func genHistRandom(c *Ctx, which string) {
 	c.stats.Rule = "random API histories (3–14 steps) over sets with helper templates shared between members, failing members, clones"
-	for i := 0; i < c.n(400, 12000); i++ {
+	for i := 0; i < c.n(300, 8000); i++ {
 		hb := newHistBuilder()
 		hb.add(Step{Op: "new", H: 0, Name: "root"})
 		// definitions
